@@ -3,10 +3,19 @@ from . import COMMON_TB, NOTE
 PROP = {
     "modules": ["Proofs.C17"],
     "streams": [{"name": "numf"}, {"name": "filter"}, {"name": "conv", "shards": 8}],
+    # the json/inspect/type cases of the filter stream report a panic as C01 and a dependence on map insertion order as C02
+    "also": ["C01", "C02"],
     "rule": "numf: every pair from {-12..12, +-2^53, +-(2^53-1), 10^15, k/4 (k=-12..12), \"3\", \"2.5\", \"-1\", \" 1\", \"x\", \"\", nil, true} "
             "x every numeric filter (exhaustive), every integer kind of divisor/zero, whole results around fmt's exponent "
             "thresholds, random pipelines of 1..6 numeric filters; filter: every value of the boundary universe as receiver x "
-            "11 filters x 19 arguments, arity and unknown-filter cases, random calls; conv: values.Convert to the 7 parameter "
+            "11 filters x 19 arguments, arity and unknown-filter cases, random calls; json / inspect / type on every value of the "
+            "universe, on a fixed family of encoding/json edge cases (strings with < > & quotes backslashes control characters "
+            "U+2028/9 and every kind of invalid UTF-8; floats around the 1e-6 / 1e21 format switches in both widths; integers at "
+            "the width boundaries; []byte of every length mod 3; nested and empty containers; maps with integer keys, keys that "
+            "need escaping, typed values; map types json.Marshal rejects; ordered maps, keyed maps, structs, ranges, drops, "
+            "pointers, times around the year 0 / 9999 limits) and on random value trees with random strings and floats, each with an oracle on the real result "
+            "(the text parses back with encoding/json to the logical value of the receiver; identical for 4 insertion orders of "
+            "every map); conv: values.Convert to the 7 parameter "
             "types, fmt.Sprint and {{ x }} on the universe, random value trees and random float64/float32 bit patterns; a case "
             "is non-trivial when the real code returns a value (not a TypeError); distinct by case line",
     "trusted_base": COMMON_TB + [
@@ -17,6 +26,12 @@ PROP = {
     "assumptions": [
         "Liquid/Filters/Num.lean, Call.lean, Convert.lean, Sprint.lean describe filters/standard_filters.go, expressions/filters.go, "
         "values/call.go, values/convert.go, fmt.Sprint and render.writeObject: checked by the numf, filter and conv streams on every run",
+        "Liquid/Filters/Json.lean describes the filters json, inspect, type, i.e. encoding/json's Marshal (Go 1.23, escapeHTML on) and fmt's %T on "
+        "the value universe, including the Go types the harness builds for structs (reflect.StructOf, fields F0, F1, ... without json tags) "
+        "and drops (a struct with one unexported field): checked by the filter stream on every run (and by robust, render, determ on whole templates)",
+        "json / inspect outside the model (counted as unmodelled): an empty []any at the top level (a nil slice prints null, an empty one [], and "
+        "compact, map, uniq return nil slices; the value universe does not distinguish them), inspect of a value json.Marshal rejects (%#v); "
+        "type of structs, drops and nil pointers (Go type names that are not part of the value)",
         "outside the model (counted as unmodelled, not compared): results Go signs as -0, overflow to +-Inf, NaN (round with |places| > 308), "
         "float->int conversions outside int64, ParseFloat's inf/nan/hex/underscore spellings, pointers and time.Time in fmt",
     ],
